@@ -78,9 +78,7 @@ def idx_str(t):
 def guarded(f):
     try:
         return f()
-    except AssertionError:
-        return 'error'
-    except (ValueError, TypeError, IndexError, KeyError) as e:
+    except Exception:           # any exception of the implementation is an observable outcome, never an internal error of the check
         return 'error'
 
 
@@ -177,7 +175,7 @@ def rand_op(rng, k, kind):
 # ---------------------------------------------------------------------------
 
 class Case:
-    __slots__ = ('op', 'impl', 'oracle', 'approx', 'key', 'ntkey', 'replay', 'value', 'soft')
+    __slots__ = ('op', 'impl', 'oracle', 'approx', 'key', 'ntkey', 'replay', 'value', 'soft', 'alias', 'tol')
 
     def __init__(self, op, impl, oracle=None, approx=False, key='', ntkey=None, replay=None, soft=False):
         self.op, self.impl, self.oracle, self.approx, self.key, self.ntkey, self.replay = op, impl, oracle, approx, key, ntkey, replay
@@ -185,6 +183,8 @@ class Case:
         # soft: a tie of the literal model to an internal helper (not part of the property's public behaviour): a mismatch is
         # recorded in the evidence but is not by itself a broken correspondence
         self.soft = soft
+        self.tol = None       # comparison tolerance when not the default (single-precision argument forms)
+        self.alias = None     # what went wrong with the arguments / repeated call (see run_case)
 
 
 def S():
@@ -209,6 +209,43 @@ def ctrl_forms(rng, c):
     return forms[int(rng.integers(0, len(forms)))]
 
 
+FORMS = ['plain', 'plain', 'strided', 'fortran-op', 'real', 'int', 'complex64', 'int-op']
+
+
+def arg_form(rng, psi, U, force=None):
+    """the same values handed over in another layout / dtype (accepted by the clean tree): a non-contiguous view of a larger
+    buffer, a Fortran-ordered operator, real float64, integer dtype, complex64.  Real forms need real data: the imaginary parts
+    are dropped *before* the model op is written, so (psi, U) returned here are what both sides see."""
+    form = force or FORMS[int(rng.integers(0, len(FORMS)))]
+    if form in ('real', 'int', 'int-op'):
+        psi, U = psi.real.copy(), U.real.copy()
+    psi_v, U_v = psi.astype(np.complex128), U.astype(np.complex128)
+    if form == 'strided':
+        big = np.zeros((2,) + psi.shape, dtype=np.complex128).reshape(-1)
+        big[::2] = psi_v.reshape(-1)
+        psi_a = big[::2].reshape(psi.shape) if psi.ndim == 1 else psi_v.copy()
+        if psi.ndim == 2:
+            bigm = np.zeros((2 * psi.shape[0], 2 * psi.shape[1]), dtype=np.complex128)
+            bigm[::2, ::2] = psi_v
+            psi_a = bigm[::2, ::2]
+        bigU = np.zeros((2 * U.shape[0], 2 * U.shape[1]), dtype=np.complex128)
+        bigU[::2, ::2] = U_v
+        U_a = bigU[::2, ::2]
+    elif form == 'fortran-op':
+        psi_a, U_a = psi_v.copy(), np.asfortranarray(U_v)
+    elif form == 'real':
+        psi_a, U_a = psi.real.astype(np.float64), U.real.astype(np.float64)
+    elif form == 'int':
+        psi_a, U_a = psi.real.astype(np.int64), U.real.astype(np.int64)
+    elif form == 'int-op':
+        psi_a, U_a = psi_v.copy(), U.real.astype(np.int32)
+    elif form == 'complex64':
+        psi_a, U_a = psi_v.astype(np.complex64), U_v.astype(np.complex64)
+    else:
+        psi_a, U_a = psi_v.copy(), U_v.copy()
+    return form, psi_v, U_v, psi_a, U_a
+
+
 def gate_cases(ctx, rng):
     """apply_gate / apply_control_n_gate on every ordered target tuple and every control subset"""
     import numqi
@@ -224,22 +261,22 @@ def gate_cases(ctx, rng):
                     for c in itertools.combinations(rest, r):
                         for rep in range(reps):
                             kind = ['general', 'unitary', 'sparse'][int(rng.integers(0, 3))]
-                            U = rand_op(rng, k, kind)
-                            psi = rand_gi(rng, 2 ** n)
-                            rp = dict(n=n, target=list(t), control=list(c), op=U.tolist().__repr__(), psi=psi.tolist().__repr__())
+                            form, psi, U, psi_a, U_a = arg_form(rng, rand_gi(rng, 2 ** n), rand_op(rng, k, kind))
+                            ctx.count('argument-form:' + form)
+                            rp = dict(n=n, target=list(t), control=list(c), op=U.tolist().__repr__(), psi=psi.tolist().__repr__(), argument_form=form)
                             if r == 0:
                                 tf = index_forms(rng, t)
                                 cases.append(Case(f'C03 gate Z {n} {idx_str(t)} {enc_z(U)} {enc_z(psi)}',
-                                                  (lambda psi=psi, U=U, tf=tf: st.apply_gate(psi, U, tf)),
+                                                  (lambda psi=psi_a, U=U_a, tf=tf: st.apply_gate(psi, U, tf)),
                                                   (lambda psi=psi, U=U, t=t, n=n: oracle_embed(U, t, n) @ psi),
-                                                  key='apply_gate', ntkey=('gate', n, t, kind), replay=dict(fn='apply_gate', **rp)))
+                                                  key='apply_gate', ntkey=('gate', n, t, kind, form), replay=dict(fn='apply_gate', **rp)))
                             else:
                                 cf = ctrl_forms(rng, c)
                                 tf = index_forms(rng, t)
                                 cases.append(Case(f'C03 ctrl Z {n} {idx_str(c)} {idx_str(t)} {enc_z(U)} {enc_z(psi)}',
-                                                  (lambda psi=psi, U=U, cf=cf, tf=tf: st.apply_control_n_gate(psi, U, cf, tf)),
+                                                  (lambda psi=psi_a, U=U_a, cf=cf, tf=tf: st.apply_control_n_gate(psi, U, cf, tf)),
                                                   (lambda psi=psi, U=U, c=c, t=t, n=n: oracle_ctrl(U, c, t, n) @ psi),
-                                                  key='apply_control_n_gate', ntkey=('ctrl', n, c, t, kind), replay=dict(fn='apply_control_n_gate', **rp)))
+                                                  key='apply_control_n_gate', ntkey=('ctrl', n, c, t, kind, form), replay=dict(fn='apply_control_n_gate', **rp)))
     if ctx.quick():
         # n = 6 sampled in the quick tier
         for _ in range(60):
@@ -260,6 +297,35 @@ def gate_cases(ctx, rng):
                                   (lambda psi=psi, U=U, c=c, t=t: st.apply_control_n_gate(psi, U, set(c), t)),
                                   (lambda psi=psi, U=U, c=c, t=t, n=n: oracle_ctrl(U, c, t, n) @ psi), key='apply_control_n_gate',
                                   ntkey=('ctrl', n, c, t, kind), replay=dict(fn='apply_control_n_gate', **rp)))
+    # chained calls: the array returned by one call is the input of the next and must still hold its value afterwards
+    for _ in range(40 if ctx.quick() else 300):
+        n = int(rng.integers(1, 5))
+        psi = rand_gi(rng, 2 ** n, -2, 2)
+        links = []
+        for _ in range(int(rng.integers(2, 5))):
+            k = int(rng.integers(1, min(n, 2) + 1))
+            q = [int(x) for x in rng.permutation(n)]
+            t, c = tuple(q[:k]), tuple(sorted(q[k:k + int(rng.integers(0, n - k + 1))]))
+            links.append((rand_op(rng, k, 'sparse' if rng.integers(0, 2) else 'unitary'), c, t))
+        def chain(psi=psi, links=links):
+            cur, hist = psi, []
+            for U, c, t in links:
+                nxt = st.apply_control_n_gate(cur, U, set(c), t) if c else st.apply_gate(cur, U, t)
+                hist.append((cur, cur.copy()))
+                cur = nxt
+            for a, a0 in hist:
+                if not np.array_equal(a, a0):
+                    return 'an earlier result was modified when it was used as the input of the next call'
+            return cur
+        def chain_oracle(psi=psi, links=links, n=n):
+            v = psi
+            for U, c, t in links:
+                v = (oracle_ctrl(U, c, t, n) if c else oracle_embed(U, t, n)) @ v
+            return v
+        text = '|'.join((f'c:{idx_str(c)}:{idx_str(t)}:{enc_z(U)}' if c else f'u:{idx_str(t)}:{enc_z(U)}') for U, c, t in links)
+        cases.append(Case(f'C03 circ Z {n} {text} {enc_z(psi)}', chain, chain_oracle, key='chained-calls', ntkey=('chain', n, len(links), len(cases)),
+                          replay=dict(fn='chained apply_gate/apply_control_n_gate', n=n, psi=repr(psi.tolist()),
+                                      links=repr([(U.tolist(), list(c), list(t)) for U, c, t in links]))))
     ctx.extra['exhaustive'] = True
     ctx.extra['exhaustive_domain'] = f'every ordered target tuple of size 1..3 and every control subset (incl. none) for n = 1..{nmax}'
     return cases
@@ -305,14 +371,16 @@ def dm_cases(ctx, rng):
         rho = rand_gi(rng, (2 ** n, 2 ** n), -2, 2)
         if rng.integers(0, 2):
             rho = rho + rho.conj().T
+        form, rho, U, rho_a, U_a = arg_form(rng, rho, U)
+        ctx.count('argument-form:' + form)
         for form, tf in (('tuple', tuple(t)), ('list', list(t))) + ((('int', int(t[0])),) if k == 1 else ()):
-            rp = dict(n=n, index=repr(tf), op=repr(U.tolist()), rho=repr(rho.tolist()))
+            rp = dict(n=n, index=repr(tf), op=repr(U.tolist()), rho=repr(rho.tolist()), argument_form=form)
             cases.append(Case(f'C03 dm Z {n} {idx_str(t)} {enc_z(U)} {enc_z(rho)}',
-                              (lambda rho=rho, U=U, tf=tf: dm.apply_gate(rho, U, tf)),
+                              (lambda rho=rho_a, U=U_a, tf=tf: dm.apply_gate(rho, U, tf)),
                               (lambda rho=rho, U=U, t=t, n=n: (lambda E: E @ rho @ E.conj().T)(oracle_embed(U, t, n))),
                               key='dm.apply_gate', ntkey=('dm', n, t, form), replay=dict(fn='dm.apply_gate', **rp)))
             cases.append(Case(f'C03 expect Z {n} {idx_str(t)} {enc_z(U)} {enc_z(rho)}',
-                              (lambda rho=rho, U=U, tf=tf: np.asarray(dm.operator_expectation(rho, U, tf)).reshape(1)),
+                              (lambda rho=rho_a, U=U_a, tf=tf: np.asarray(dm.operator_expectation(rho, U, tf)).reshape(1)),
                               (lambda rho=rho, U=U, t=t, n=n: np.trace(rho @ oracle_embed(U, t, n)).reshape(1)),
                               key='dm.operator_expectation', ntkey=('expect', n, t, form), replay=dict(fn='dm.operator_expectation', **rp)))
     return cases
@@ -358,11 +426,15 @@ def prob_cases(ctx, rng):
                 psi = rand_gi(rng, 2 ** n)
                 if rng.integers(0, 3) == 0:
                     psi = psi * rng.integers(0, 2, size=psi.shape)
+                form, psi, _, psi_a, _ = arg_form(rng, psi, np.eye(2))
+                ctx.count('argument-form:' + form)
                 cases.append(Case(f'C03 prob Z {n} {idx_str(keep)} {enc_z(psi)}',
-                                  (lambda psi=psi, keep=keep: st.reduce_to_probability(psi, set(keep))),
+                                  (lambda psi=psi_a, keep=keep: st.reduce_to_probability(psi, set(keep))),
                                   (lambda psi=psi, keep=keep, n=n: oracle_marginal(psi, keep, n)),
-                                  approx=True, key='reduce_to_probability', ntkey=('prob', n, keep),
-                                  replay=dict(fn='reduce_to_probability', n=n, keep=list(keep), psi=repr(psi.tolist()))))
+                                  approx=True, key='reduce_to_probability', ntkey=('prob', n, keep, form),
+                                  replay=dict(fn='reduce_to_probability', n=n, keep=list(keep), psi=repr(psi.tolist()), argument_form=form)))
+                if form == 'complex64':
+                    cases[-1].tol = 1e-5        # |.|^2 in float32: relative rounding 6e-8 per term
     return cases
 
 
@@ -1406,13 +1478,103 @@ def _ctrl_proj(c, n):
     return P
 
 
+def _arrays_in(obj, out, depth=0):
+    if isinstance(obj, np.ndarray):
+        out.append(obj)
+    elif isinstance(obj, (list, tuple)) and depth < 6:
+        for x in obj:
+            _arrays_in(x, out, depth + 1)
+    elif isinstance(obj, dict) and depth < 6:
+        for x in obj.values():
+            _arrays_in(x, out, depth + 1)
+    return out
+
+
+def _same(a, b):
+    if isinstance(a, str) or isinstance(b, str):
+        return isinstance(a, str) and isinstance(b, str) and a == b
+    if isinstance(a, (tuple, list)) and isinstance(b, (tuple, list)):
+        return len(a) == len(b) and all(_same(x, y) for x, y in zip(a, b))
+    if a is None or b is None:
+        return a is None and b is None
+    try:
+        x, y = np.asarray(a), np.asarray(b)
+        return x.shape == y.shape and bool(np.array_equal(x, y, equal_nan=True))
+    except Exception:
+        return a == b
+
+
+def _snapshot(v):
+    if isinstance(v, np.ndarray):
+        return v.copy()
+    if isinstance(v, (tuple, list)):
+        return type(v)(_snapshot(x) for x in v)
+    return v
+
+
+def _cx(x):
+    if isinstance(x, list):
+        return [_cx(y) for y in x]
+    return complex(x) if isinstance(x, str) else complex(x)
+
+
+def corpus_cases(ctx):
+    """original witnesses of the repaired defects of this property (corpus/C03/*.json), replayed first in both tiers"""
+    import glob, json, os, numqi
+    dm = numqi.sim.dm
+    cases = []
+    for f in sorted(glob.glob(os.path.join(common.VERIF, 'corpus', 'C03', '*.json'))):
+        for i, e in enumerate(json.load(open(f))['entries']):
+            n = e['n']
+            idx = eval(e['index'], {'__builtins__': {}}, {})
+            t = (idx,) if isinstance(idx, int) else tuple(idx)
+            U = np.array(_cx(e['U']), dtype=np.complex128); rho = np.array(_cx(e['rho']), dtype=np.complex128)
+            rp = dict(n=n, index=e['index'], op=repr(U.tolist()), rho=repr(rho.tolist()), corpus=os.path.basename(f))
+            ctx.count('corpus')
+            if e['kind'] == 'dm.apply_gate':
+                cases.append(Case(f'C03 dm Z {n} {idx_str(t)} {enc_z(U)} {enc_z(rho)}', (lambda rho=rho, U=U, idx=idx: dm.apply_gate(rho, U, idx)),
+                                  (lambda rho=rho, U=U, t=t, n=n: (lambda E: E @ rho @ E.conj().T)(oracle_embed(U, t, n))),
+                                  key='dm.apply_gate', ntkey=('corpus', os.path.basename(f), i), replay=dict(fn='dm.apply_gate', **rp)))
+            else:
+                cases.append(Case(f'C03 expect Z {n} {idx_str(t)} {enc_z(U)} {enc_z(rho)}',
+                                  (lambda rho=rho, U=U, idx=idx: np.asarray(dm.operator_expectation(rho, U, idx)).reshape(1)),
+                                  (lambda rho=rho, U=U, t=t, n=n: np.trace(rho @ oracle_embed(U, t, n)).reshape(1)),
+                                  key='dm.operator_expectation', ntkey=('corpus', os.path.basename(f), i), replay=dict(fn='dm.operator_expectation', **rp)))
+    return cases
+
+
+def run_case(c):
+    """call the implementation with every array argument snapshotted: the arguments must be bit-identical afterwards, a second
+    call on the very same argument objects must return the same value, and the value returned first must not change when
+    the routine is called again (no aliasing of caller data or of cached buffers)"""
+    arrs = _arrays_in(list(c.impl.__defaults__ or ()), [])
+    snaps = [(a.copy(), a.dtype, a.strides) for a in arrs]
+    v1 = guarded(c.impl)
+    problems = []
+    if any(not (np.array_equal(a, s0, equal_nan=True) and a.dtype == dt) for a, (s0, dt, _) in zip(arrs, snaps)):
+        problems.append('an argument array was modified by the call')
+    keep = _snapshot(v1)
+    v2 = guarded(c.impl)
+    if not _same(v1, keep):
+        problems.append('the value returned by the first call changed when the routine was called again (it aliases a shared buffer)')
+    elif not _same(v2, keep):
+        problems.append('a second call on the same argument objects returned a different value')
+    if not problems and isinstance(v1, np.ndarray) and any(np.shares_memory(v1, a) for a in arrs) and c.key in NO_ALIAS_KEYS:
+        problems.append('the returned array shares memory with an argument')
+    c.alias = problems[0] if problems else None
+    return keep
+
+
+# routines whose result is a new state (must not be a view of the caller's state)
+NO_ALIAS_KEYS = {'apply_gate', 'apply_control_n_gate', 'dm.apply_gate', 'Circuit.apply_state'}
+
 _CACHE = {}
 
 
 def all_cases(ctx):
     if 'cases' not in _CACHE:
         rng = np.random.default_rng(ctx.np_seed)
-        cases = gate_cases(ctx, rng) + embed_cases(ctx, rng) + dm_cases(ctx, rng) + inner_cases(ctx, rng) + prob_cases(ctx, rng) \
+        cases = corpus_cases(ctx) + gate_cases(ctx, rng) + embed_cases(ctx, rng) + dm_cases(ctx, rng) + inner_cases(ctx, rng) + prob_cases(ctx, rng) \
             + circuit_cases(ctx, rng) + malformed_cases(ctx, rng) + slice_cases(ctx, rng) + vocabulary_cases(ctx, rng) + derivative_cases(ctx, rng) + session_cases(ctx, rng)
         for c in cases:
             if c.soft:
@@ -1421,7 +1583,7 @@ def all_cases(ctx):
                 except Exception as e:      # internal helper renamed / re-shaped: the tie is simply not applicable
                     c.value = 'unavailable:' + type(e).__name__
             else:
-                c.value = guarded(c.impl)
+                c.value = run_case(c)
         _CACHE['cases'] = cases
     return _CACHE['cases']
 
@@ -1468,7 +1630,7 @@ def agree(case, model_line):
         return e is not None and e == model_line
     ring = case.op.split(' ')[2]
     m = dec_z(model_line) if ring == 'Z' else dec_q(model_line)
-    return close(v, m, 1e-12 if case.op.split(' ')[1] in ('gatemat', 'vocab', 'dgate') else TOL)
+    return close(v, m, case.tol or (1e-12 if case.op.split(' ')[1] in ('gatemat', 'vocab', 'dgate') else TOL))
 
 
 def correspondence(ctx):
@@ -1503,6 +1665,8 @@ def probe(ctx):
     cases = all_cases(ctx)
     failed_sessions = set()
     for c in cases:
+        if c.alias:
+            ctx.fail('aliasing:' + c.key, f'{c.key}: {c.alias}', dict(c.replay or {}, op=c.op[:300]))
         if c.oracle is None:
             continue
         want = c.oracle()
@@ -1529,7 +1693,7 @@ def probe(ctx):
             else:
                 ctx.probe_ok(('probe',) + tuple(c.ntkey))
             continue
-        ok = np.array_equal(np.asarray(v).reshape(-1), np.asarray(want).reshape(-1)) if not c.approx else close(v, want)
+        ok = np.array_equal(np.asarray(v).reshape(-1), np.asarray(want).reshape(-1)) if not c.approx else close(v, want, c.tol or TOL)
         if not ok:
             ctx.fail(c.key, f'{c.key} differs from the explicitly embedded operator (np.kron oracle): got {np.asarray(v).reshape(-1)[:6].tolist()}…, '
                              f'expected {np.asarray(want).reshape(-1)[:6].tolist()}…', dict(c.replay or {}, observed=repr(np.asarray(v).tolist()), expected=repr(np.asarray(want).tolist())))
